@@ -227,6 +227,10 @@ fn run_history(cfg: &HCfg, history: &[String]) -> StepOut {
     let mut d = Some(d);
     let mut alive = true;
     let mut spans: Vec<Vec<(usize, Vec<u8>)>> = vec![vec![], vec![]];
+    // spans the *current* filter value saw being created and entered: a span-scoped EnvFilter put in
+    // place by a reload has no record of the spans that were already open ("judged by the new
+    // filter" means by that filter's own state)
+    let mut seen_by_filter: Vec<Vec<bool>> = vec![vec![], vec![]];
     let mut out = StepOut { f17: 0, key: String::new(), next: vec![], violations: vec![], obs: String::new() };
     for (step, op) in history.iter().enumerate() {
         let p: Vec<&str> = op.split(':').collect();
@@ -237,7 +241,12 @@ fn run_history(cfg: &HCfg, history: &[String]) -> StepOut {
                 let i: usize = p[1].parse().unwrap();
                 let r = do_reload(&handle, &vals[i]);
                 match (alive, &r) {
-                    (true, Ok(())) => cur = i,
+                    (true, Ok(())) => {
+                        cur = i;
+                        for f in seen_by_filter.iter_mut().flat_map(|v| v.iter_mut()) {
+                            *f = false;
+                        }
+                    }
                     (true, Err(e)) => fail(format!("reload on a live collector failed: {}", e)),
                     (false, Ok(())) => fail("reload succeeded although the collector is gone".into()),
                     (false, Err(e)) => {
@@ -265,7 +274,8 @@ fn run_history(cfg: &HCfg, history: &[String]) -> StepOut {
                 let th = threads[t].as_ref().unwrap();
                 let vis = |l: u8, sp: &Vec<(usize, Vec<u8>)>| -> Vec<&'static str> { sp.iter().filter(|s| s.1.contains(&l)).map(|s| cs[s.0].meta.name).collect() };
                 // the reloadable filter belongs to layer 1 (or is global): its context is what layer 1 sees
-                let ctx = if cfg.kind == Kind::Global { spans[t].iter().filter(|s| !s.1.is_empty()).map(|s| cs[s.0].meta.name).collect() } else { vis(1, &spans[t]) };
+                let known: Vec<(usize, Vec<u8>)> = spans[t].iter().zip(seen_by_filter[t].iter()).filter(|(_, k)| **k).map(|(s, _)| s.clone()).collect();
+                let ctx: Vec<&'static str> = if cfg.kind == Kind::Global { known.iter().filter(|s| !s.1.is_empty()).map(|s| cs[s.0].meta.name).collect() } else { vis(1, &known) };
                 match p[1] {
                     "ev" => {
                         let i: usize = p[2].parse().unwrap();
@@ -310,10 +320,12 @@ fn run_history(cfg: &HCfg, history: &[String]) -> StepOut {
                             }
                         }
                         spans[t].push((i, want));
+                        seen_by_filter[t].push(true);
                     }
                     _ => {
                         // close: a span's later notifications follow the verdict it got when it was created
                         let (i, vis_l) = spans[t].pop().unwrap();
+                        seen_by_filter[t].pop();
                         th.tx.send(Cmd::Close).unwrap();
                         if let Ok(Some(m)) = th.rx.recv() {
                             fail(format!("panic: {}", m));
@@ -337,7 +349,7 @@ fn run_history(cfg: &HCfg, history: &[String]) -> StepOut {
     // the published maximum level never hides something the new value accepts: covered by the
     // delivery checks above; record it in the key (it is hidden state for the future)
     let maxl = LevelFilter::current();
-    out.key = format!("{}|{}|{:?}|{}", cur, alive, spans, maxl);
+    out.key = format!("{}|{}|{:?}|{:?}|{}", cur, alive, spans, seen_by_filter, maxl);
     if alive {
         for t in 0..2 {
             for i in [0usize, 1, 2, 4, 5] {
